@@ -360,7 +360,9 @@ func (p *service) processSubscribe(msg *message.SubscribeMessage) error {
 	for _, rm := range p.rmsgs {
 		if err := p.publish(rm, nil); err != nil {
 			log.Warningf("(%s) Error publishing retained message: %v", p.cid(), err)
-			return err
+			// One retained message that cannot be sent (larger than the
+			// outgoing buffer, for instance) must not keep back the others.
+			continue
 		}
 	}
 
